@@ -203,8 +203,25 @@ Definition abs_cur (fuel : nat) (w : world) : option txn :=
    Depth-first from a list of roots arrays; node ids and array ids are assigned
    in first-visit order (1, 2, ...), separately; empty arrays have id 0 (Go: no
    identity).  A node record is emitted when the node is finished (post-order).
-   harness/cmd/c03 performs the same traversal on the addresses of VerifDump. *)
-Record gnode := { g_id : N; g_key : bytes; g_rt : option (bytes * N); g_arr : N; g_kids : list N }.
+   harness/cmd/c03 performs the same traversal on the addresses of VerifDump.
+   The inode chain of a node (newNodeFromRef: one continuation node per infix catch-all of the key,
+   sharing the node's children array) is not a heap object of the model; what the model says about it is
+   that every node owns a FRESH chain whose members point at the node's own children array.  g_ino lists,
+   per chain member k = 1, 2, .., the pair (identity, array id); the expected identity is 8 * node id + k,
+   the harness gives an inode object the code of the first node/position it was reached from, so an inode
+   object shared between two nodes, or pointing at another array, does not compare equal. *)
+Record gnode := { g_id : N; g_key : bytes; g_rt : option (bytes * N); g_arr : N; g_kids : list N;
+                  g_ino : list (N * N) }.
+
+Fixpoint inode_count (fuel : nat) (k : bytes) : nat :=
+  match fuel with O => O | S f =>
+    match first_infix_catch (parse_wildcard k) with
+    | Some e => S (inode_count f (skipn e k))
+    | None => O
+    end
+  end.
+Definition expected_inodes (id aid : N) (k : bytes) : list (N * N) :=
+  map (fun j => (N.add (N.mul 8 id) (N.of_nat j), aid)) (seq 1 (inode_count (List.length k) k)).
 Record graph := { gr_roots : list (N * list N); gr_nodes : list gnode }.
 
 Record gstate := { gs_n : PM.t N; gs_a : PM.t N; gs_nc : N; gs_ac : N; gs_out : list gnode }.
@@ -245,7 +262,8 @@ Fixpoint visit (fuel : nat) (s : st) (a : addr) (g : gstate) : option (N * gstat
               Some (id, {| gs_n := gs_n g3; gs_a := gs_a g3; gs_nc := gs_nc g3; gs_ac := gs_ac g3;
                            gs_out := {| g_id := id; g_key := n_key o;
                                         g_rt := match n_route o with Some r => Some (rpat r, rid r) | None => None end;
-                                        g_arr := aid; g_kids := kids |} :: gs_out g3 |})
+                                        g_arr := aid; g_kids := kids;
+                                        g_ino := expected_inodes id aid (n_key o) |} :: gs_out g3 |})
           | None => None
           end
         end
@@ -302,7 +320,9 @@ Record c3case := { k_cap : N; k_steps : list c3step }.
 
 (* compact constructors used by the generated case files (numerals are N there) *)
 Definition mkG (id : N) (k : bytes) (rt : option (bytes * N)) (arr : N) (kids : list N) : gnode :=
-  {| g_id := id; g_key := k; g_rt := rt; g_arr := arr; g_kids := kids |}.
+  {| g_id := id; g_key := k; g_rt := rt; g_arr := arr; g_kids := kids; g_ino := [] |}.
+Definition mkGI (id : N) (k : bytes) (rt : option (bytes * N)) (arr : N) (kids : list N) (ino : list (N * N)) : gnode :=
+  {| g_id := id; g_key := k; g_rt := rt; g_arr := arr; g_kids := kids; g_ino := ino |}.
 Definition mkGr (rs : list (N * list N)) (ns : list gnode) : graph := {| gr_roots := rs; gr_nodes := ns |}.
 Definition mkH (m p : bytes) (v : bool) (psl hs id : N) : wop := WHandle m p v (N.to_nat psl) (N.to_nat hs) id.
 Definition mkU (m p : bytes) (v : bool) (psl hs id : N) : wop := WUpdate m p v (N.to_nat psl) (N.to_nat hs) id.
@@ -334,7 +354,8 @@ Definition hnode (h : N) (n : gnode) : N :=
   let h := hmix h (g_id n) in
   let h := hbytes h (g_key n) in
   let h := match g_rt n with Some (p, i) => hmix (hbytes (hmix h 1) p) i | None => hmix h 0 end in
-  hlist (hmix h (g_arr n)) (g_kids n).
+  let h := hlist (hmix h (g_arr n)) (g_kids n) in
+  fold_left (fun h p => hmix (hmix h (fst p)) (snd p)) (g_ino n) (hmix h (N.of_nat (List.length (g_ino n)))).
 Definition ghash (g : graph) : N :=
   let h := fold_left (fun h r => hlist (hmix h (fst r)) (snd r)) (gr_roots g) 14695981039346656037%N in
   fold_left hnode (gr_nodes g) h.
@@ -351,7 +372,8 @@ Definition wout_eqb (a b : wout) : bool :=
 Definition rt_eqb (a b : bytes * N) : bool := bytes_eqb (fst a) (fst b) && N.eqb (snd a) (snd b).
 Definition gnode_eqb (a b : gnode) : bool :=
   N.eqb (g_id a) (g_id b) && bytes_eqb (g_key a) (g_key b) && opt_eqb rt_eqb (g_rt a) (g_rt b) &&
-  N.eqb (g_arr a) (g_arr b) && list_eqb N.eqb (g_kids a) (g_kids b).
+  N.eqb (g_arr a) (g_arr b) && list_eqb N.eqb (g_kids a) (g_kids b) &&
+  list_eqb (fun x y => N.eqb (fst x) (fst y) && N.eqb (snd x) (snd y)) (g_ino a) (g_ino b).
 Definition groot_eqb (a b : N * list N) : bool := N.eqb (fst a) (fst b) && list_eqb N.eqb (snd a) (snd b).
 Definition graph_eqb (a b : graph) : bool :=
   list_eqb groot_eqb (gr_roots a) (gr_roots b) && list_eqb gnode_eqb (gr_nodes a) (gr_nodes b).
